@@ -9,6 +9,7 @@ import FontVerif.Model.GvarApply
 import FontVerif.Lemmas.GvarApply
 import FontVerif.Lemmas.GvarMulti
 import FontVerif.Lemmas.GvarSum
+import FontVerif.Lemmas.GvarHeadline
 import FontVerif.Lemmas.GvarScalar
 import FontVerif.Props.C10Data
 set_option linter.unusedVariables false
@@ -156,11 +157,12 @@ the per-tuple contributions mod 2³², the plain sum without wrap; `tuple_order_
 `apply_deltas_eq_spec_one_contour` is its one-contour case used by the induction),
 `accumulate_sparse_pointwise` + `scaled_delta_exact` (the working buffer the per-tuple theorem starts
 from), `applied_coordinate_within_rounding` (sum of the per-tuple bounds + the final rounding), and
-`tuple_scalar_error_bound` for the exact tent scalars.  The interface between them is explicit: the
-per-tuple relation `Term.Ok` (= the conclusion of `apply_deltas_eq_spec`) and `TupleContribution`
-(what the model's step does) are hypotheses / conclusions of the respective theorems; the identity
-"buffer after `accSparse` = `workOf points (ds · s)`" for a concrete byte stream is given pointwise by
-`accumulate_sparse_pointwise`, not as one list equality. -/
+`tuple_scalar_error_bound` for the exact tent scalars.  The composition is ONE theorem from the decoded
+tuples (scalar, explicit flags, deltas) to the output coordinate: `applied_outline_within_rounding`
+(x axis; y is the same with second components).  The step from the table bytes to the decoded tuples is
+`accumulate_sparse_buffer_eq_workOf` (list equality of the buffer after the fast path) together with
+`simple_glyph_closed_formula` (the model's fold is such a sum of `TupleContribution`s); instantiating
+`applyDecoded` from `simpleGlyph` tuple by tuple with these two is not written out as a further theorem. -/
 /-- **`apply_deltas_eq_spec_one_contour` — one tuple, one contour (+ the four phantom points).**
 `points` = the `n` contour points then the phantom points (coordinates within `±M`); the tuple lists
 explicit deltas `ds` (zero where `has` is false, magnitudes within `Δ`) and is applied with the
@@ -449,6 +451,149 @@ theorem applied_coordinate_within_rounding (terms : List Term) (hok : ∀ t ∈ 
   push_cast
   rw [abs_le]
   constructor <;> linarith
+
+/-- **`applied_outline_within_rounding` — the headline as ONE theorem, from the decoded tuples to the
+output coordinate** (x axis; the y axis is the same statement with the second components).
+Glyph: `np` points with coordinates within `±M ≤ 16383`, contour ends `ends` (`ContoursWF`).  Tuples:
+any non-empty list of decoded tuples `t` (16.16 scalar `0 < t.s ≤ 65536`, explicit flags `t.has`,
+deltas `t.ds` within `±Δ`, zero where not explicit; a dense tuple has every flag set), with
+`131072 M + 4·Δ·65536 + 65536 < 2³¹`.  Point: `k` in the contour `c = (first, last)`.  With
+`I_t = inferSpec` on that contour's slice (the specification's explicit-or-inferred delta of tuple
+`t` at `k`, as `num_t / den_t`) and the no-wrap bound on the total
+`|Σ_t s_t · I_t| + Σ_t (den_t − 1)/2 < 2³¹ − 32768`:
+`applyDecoded` — skrifa's `simple_glyph` fold on the decoded tuples: per tuple a fresh working buffer
+`point·65536 + s·d` (= what `accumulate_sparse_deltas` leaves, `accSparse_eq_workOf`), `interpolate_deltas`,
+`delta += working − point` with wrapping addition in tuple order — succeeds, and the scaler's unscaled
+coordinate `p + Fixed::to_i32(delta_k)` satisfies
+
+  `| (p + R) − ( p + Σ_t (s_t/65536) · num_t/den_t ) |  ≤  1/2 + Σ_t (den_t − 1)/131072`. -/
+theorem applied_outline_within_rounding (np : Nat) (points : List Iup.Pt) (ends : List Nat) (ts : List DTuple)
+    (hpl : points.length = np) (hwf : ContoursWF np 0 ends) (hne : ts ≠ [])
+    (M Δ : Int) (hM : 0 ≤ M ∧ M ≤ 16383) (hΔ : 0 ≤ Δ)
+    (hfit : 131072 * M + 4 * (Δ * 65536) + 65536 ≤ 2147483647)
+    (hpts : ∀ k, (-M ≤ (Iup.getP points k).1 ∧ (Iup.getP points k).1 ≤ M) ∧
+      (-M ≤ (Iup.getP points k).2 ∧ (Iup.getP points k).2 ≤ M))
+    (hts : ∀ t ∈ ts, t.has.length = np ∧ t.ds.length = np ∧ (0 < t.s ∧ t.s ≤ 65536) ∧
+      (∀ k, (-Δ ≤ (Iup.getP t.ds k).1 ∧ (Iup.getP t.ds k).1 ≤ Δ) ∧ (-Δ ≤ (Iup.getP t.ds k).2 ∧ (Iup.getP t.ds k).2 ≤ Δ)) ∧
+      (∀ k, t.has.getD k false = false → Iup.getP t.ds k = (0, 0)))
+    (c : Nat × Nat) (hc : c ∈ contoursOf 0 ends) (k : Nat) (hk1 : c.1 ≤ k) (hk2 : k ≤ c.2)
+    (hwrap : |(ts.map fun t => (t.s : ℚ) *
+          (((Iup.inferSpec (points.drop c.1) ((t.ds.drop c.1).take (c.2 - c.1 + 1)) (t.has.drop c.1) (k - c.1)).1.1 : ℚ) /
+            (Iup.inferSpec (points.drop c.1) ((t.ds.drop c.1).take (c.2 - c.1 + 1)) (t.has.drop c.1) (k - c.1)).1.2)).sum|
+        + (ts.map fun t =>
+          (((Iup.inferSpec (points.drop c.1) ((t.ds.drop c.1).take (c.2 - c.1 + 1)) (t.has.drop c.1) (k - c.1)).1.2 : ℚ) - 1) / 2).sum
+        < 2147450880) :
+    ∃ deltas, applyDecoded points ends ts = some deltas ∧
+      |(((Iup.getP points k).1 + Fixed.toI32 (deltas.getD k (0, 0)).1 : Int) : ℚ)
+        - (((Iup.getP points k).1 : ℚ) + (ts.map fun t => (t.s : ℚ) *
+          (((Iup.inferSpec (points.drop c.1) ((t.ds.drop c.1).take (c.2 - c.1 + 1)) (t.has.drop c.1) (k - c.1)).1.1 : ℚ) /
+            (Iup.inferSpec (points.drop c.1) ((t.ds.drop c.1).take (c.2 - c.1 + 1)) (t.has.drop c.1) (k - c.1)).1.2)).sum / 65536)|
+      ≤ 1 / 2 + (ts.map fun t =>
+          (((Iup.inferSpec (points.drop c.1) ((t.ds.drop c.1).take (c.2 - c.1 + 1)) (t.has.drop c.1) (k - c.1)).1.2 : ℚ) - 1) / 2).sum / 65536 := by
+  -- the point lies inside the glyph
+  have hcw := ContoursAll_mem ends 0 (ContoursWF_all np ends 0 hwf) c hc
+  have hknp : k < np := by omega
+  -- per tuple: `interpolate_deltas` succeeds and the contribution is near the specification
+  have hper : ∀ t ∈ ts, ∃ out, Iup.readerInterpolate points t.has ends (t.work points) = some out ∧
+      Term.Ok ⟨(Iup.getP out k).1 - (Iup.getP points k).1 * 65536, t.s,
+        (Iup.inferSpec (points.drop c.1) ((t.ds.drop c.1).take (c.2 - c.1 + 1)) (t.has.drop c.1) (k - c.1)).1.1,
+        (Iup.inferSpec (points.drop c.1) ((t.ds.drop c.1).take (c.2 - c.1 + 1)) (t.has.drop c.1) (k - c.1)).1.2⟩ := by
+    intro t ht
+    obtain ⟨h1, h2, h3, h4, h5⟩ := hts t ht
+    obtain ⟨out, e, _, hall, _⟩ := apply_deltas_eq_spec np points t.ds t.has t.s ends hpl h1 h2 hwf M Δ hM hΔ h3 hfit
+      hpts h4 h5
+    have := ContoursAll_mem ends 0 hall c hc k hk1 hk2
+    simp only [] at this
+    obtain ⟨a1, _, a3, a4, _⟩ := this
+    exact ⟨out, e, a1, a3, a4⟩
+  -- the contributions
+  let f : DTuple → List Iup.Pt := fun t =>
+    (List.range points.length).map fun j => ptSub ((outOf points ends t).getD j (0, 0)) (ptFromI32 (points.getD j (0, 0)))
+  have hdec : ∀ t ∈ ts, decodedContribution points ends t = some (f t) := by
+    intro t ht
+    obtain ⟨out, e, _⟩ := hper t ht
+    simp only [decodedContribution, f, outOf, e, Option.map_some, Option.getD_some]
+  have hfold : applyDecoded points ends ts = _ :=
+    applyDecoded_fold points ends f ts ((List.range points.length).map fun _ => ((0 : Int), (0 : Int))) hdec
+  have hmapne : ts.map f ≠ [] := by simpa using hne
+  refine ⟨_, hfold, ?_⟩
+  have hcl := accumulate_closed (ts.map f) points.length k (by omega) hmapne
+  rw [hcl]
+  simp only []
+  -- the column: wrapped per-tuple differences
+  have hp : Iup.fxFromI32 (Iup.getP points k).1 = (Iup.getP points k).1 * 65536 := by
+    obtain ⟨⟨b1, b2⟩, _⟩ := hpts k
+    unfold Iup.fxFromI32; exact wrapI32_of_in (by omega) (by omega)
+  have hcol : colX (ts.map f) k = ((ts.map fun t => ((Iup.getP (outOf points ends t) k).1 - (Iup.getP points k).1 * 65536)).map wrapI32).sum := by
+    unfold colX
+    rw [List.map_map, List.map_map]
+    congr 1
+    apply List.map_congr_left
+    intro t _
+    simp only [Function.comp, f]
+    rw [List.getD_eq_getElem?_getD, List.getElem?_map, List.getElem?_range (by omega)]
+    simp only [Option.map_some, Option.getD_some, ptSub, ptFromI32, Iup.fxSub]
+    have : Fixed.fromI32 (points.getD k (0, 0)).1 = (Iup.getP points k).1 * 65536 := by rw [← fxFromI32_eq]; exact hp
+    rw [this]; rfl
+  rw [hcol, wrap_sum_wrap]
+  -- the terms
+  let terms : List Term := ts.map fun t =>
+    ⟨(Iup.getP (outOf points ends t) k).1 - (Iup.getP points k).1 * 65536, t.s,
+      (Iup.inferSpec (points.drop c.1) ((t.ds.drop c.1).take (c.2 - c.1 + 1)) (t.has.drop c.1) (k - c.1)).1.1,
+      (Iup.inferSpec (points.drop c.1) ((t.ds.drop c.1).take (c.2 - c.1 + 1)) (t.has.drop c.1) (k - c.1)).1.2⟩
+  have hok : ∀ x ∈ terms, x.Ok := by
+    intro x hx
+    obtain ⟨t, ht, rfl⟩ := List.mem_map.mp hx
+    obtain ⟨out, e, ok⟩ := hper t ht
+    have : outOf points ends t = out := by simp [outOf, e]
+    rw [this]; exact ok
+  have e1 : (ts.map fun t => ((Iup.getP (outOf points ends t) k).1 - (Iup.getP points k).1 * 65536)) = terms.map (·.δ) := by
+    simp only [terms, List.map_map]; rfl
+  have e2 : (ts.map fun t => (t.s : ℚ) *
+          (((Iup.inferSpec (points.drop c.1) ((t.ds.drop c.1).take (c.2 - c.1 + 1)) (t.has.drop c.1) (k - c.1)).1.1 : ℚ) /
+            (Iup.inferSpec (points.drop c.1) ((t.ds.drop c.1).take (c.2 - c.1 + 1)) (t.has.drop c.1) (k - c.1)).1.2))
+      = terms.map fun t => (t.s : ℚ) * ((t.num : ℚ) / t.den) := by
+    simp only [terms, List.map_map]; rfl
+  have e3 : (ts.map fun t =>
+          (((Iup.inferSpec (points.drop c.1) ((t.ds.drop c.1).take (c.2 - c.1 + 1)) (t.has.drop c.1) (k - c.1)).1.2 : ℚ) - 1) / 2)
+      = terms.map fun t => ((t.den : ℚ) - 1) / 2 := by
+    simp only [terms, List.map_map]; rfl
+  rw [e1]
+  rw [e2, e3] at hwrap ⊢
+  -- nothing wraps
+  have hsum := sum_near_rat terms hok
+  have hT : -2147483648 ≤ (terms.map (·.δ)).sum ∧ (terms.map (·.δ)).sum < 2147450880 := by
+    obtain ⟨g1, g2⟩ := abs_le.mp hsum
+    have g3 := le_abs_self ((terms.map fun t => (t.s : ℚ) * ((t.num : ℚ) / t.den)).sum)
+    have g4 := neg_abs_le ((terms.map fun t => (t.s : ℚ) * ((t.num : ℚ) / t.den)).sum)
+    constructor
+    · have : (-2147483648 : ℚ) ≤ ((terms.map (·.δ)).sum : Int) := by linarith
+      exact_mod_cast this
+    · have : (((terms.map (·.δ)).sum : Int) : ℚ) < 2147450880 := by linarith
+      exact_mod_cast this
+  rw [wrapI32_of_in hT.1 (by omega)]
+  exact applied_coordinate_within_rounding terms hok (Iup.getP points k).1 hT
+
+/-- **the glue between the byte-level fast path and the decoded tuples**: with the calls of the two
+passes as in `sparse_fast_path_eq_iterator` (`pts.zip xs`, `pts.zip ys`, distinct points), values
+within `±Δ`, coordinates within `±M`, `M + Δ ≤ 32767` and a scalar in `[0, 65536]`, the buffer and
+flags `accumulate_sparse_deltas` leaves on a fresh buffer are — as LISTS — `workOf points (scaled
+explicit deltas)` and the listed-point flags: exactly the `DTuple.work` / `DTuple.has` from which
+`applied_outline_within_rounding` starts. -/
+theorem accumulate_sparse_buffer_eq_workOf (pts : List Nat) (xs ys : List Int) (ptBytes dBytes bs rest : List Nat)
+    (s : Int) (points : List Iup.Pt)
+    (hcount : (countAndCountBytes ptBytes).1 = pts.length) (hit : ptIterOf ptBytes = .list pts)
+    (hx : readSparse (pts.length + 1) 0 pts.length (.list pts) dBytes = some (pts.zip xs, bs))
+    (hy : readSparse (pts.length + 1) 0 pts.length (.list pts) bs = some (pts.zip ys, rest))
+    (hnd : pts.Nodup) (hlx : xs.length = pts.length) (hly : ys.length = pts.length)
+    (M Δ : Int) (hM : 0 ≤ M) (hΔ : 0 ≤ Δ) (hMΔ : M + Δ ≤ 32767) (hs : 0 ≤ s ∧ s ≤ 65536)
+    (hpts : ∀ k, (-M ≤ (Iup.getP points k).1 ∧ (Iup.getP points k).1 ≤ M) ∧
+      (-M ≤ (Iup.getP points k).2 ∧ (Iup.getP points k).2 ≤ M))
+    (hxs : ∀ v ∈ xs, -Δ ≤ v ∧ v ≤ Δ) (hys : ∀ v ∈ ys, -Δ ≤ v ∧ v ≤ Δ) :
+    accSparse ptBytes dBytes s (points.map ptFromI32) (points.map fun _ => false)
+      = some (workOf points (scaledEx pts xs ys s points.length), listedFlags pts xs points.length) :=
+  accSparse_eq_workOf pts xs ys ptBytes dBytes bs rest s points hcount hit hx hy hnd hlx hly M Δ hM hΔ hMΔ hs
+    hpts hxs hys
 
 /-! ### composite glyphs: component offsets and phantom points, no inference -/
 
